@@ -9,8 +9,8 @@ EXPLANATION = ('Decides: (WHENCE) the decision table of sf_seek, extracted by pa
                '(SEEK-GATE) the codec seek is reached only after the seekable test and the range test (< 0 always, > frames in read mode); (SEEK-ERR) in sf_seek and in every function of the '
                'seek slot each return of PSF_SEEK_ERROR is preceded by a store of a non-zero error (or the error is known set), and no seek function returns an error code as a position; '
                '(BLOCK-SEEK) block-addressed codec seeks compute block index and in-block offset as quotient and remainder by the same quantity, position the file at dataoffset + block * (the '
-               'byte size the block reader reads), set the block counter before decoding and the in-block position after it. Equality of sample sequences under partitions/seeks is NOT decided.')
-NOT_DECIDED = ['sample sequence equality under arbitrary read partitions and seeks', 'last partial block handling (SDS, PAF)']
+               'byte size the block reader reads), set the block counter before decoding and the in-block position after it; (BLOCK-FILL) no block reader decodes bytes a short read left over from an earlier block. Equality of sample sequences under partitions/seeks is NOT decided.')
+NOT_DECIDED = ['sample sequence equality under arbitrary read partitions and seeks', 'last partial block arithmetic (SDS, PAF) beyond BLOCK-FILL']
 ASSUMPTIONS = ['the header parser establishes blocksize / samplesperblock consistently']
 
 BLOCK_SEEKS = {
@@ -172,6 +172,15 @@ def run(ctx):
             ok = b.lo is not None and b.lo >= 0
             ctx.ob('SEEK-RESULT', '%s#%d' % (lv, nst), ok, sk.loc(a), '%s = %s with %s >= %s%s' % (lv, resvar, resvar, b.lo, '' if ok else ' — PSF_SEEK_ERROR (-1) from a failed codec seek becomes the position'), repr(b))
     ctx.require(nst >= 3, 'only %d stores of the codec seek result found in %s' % (nst, sk.name))
+
+    ctx.rule('BLOCK-FILL', 'a block reader that fills a buffer of its private state with psf_fread and then decodes from it does not decode bytes the read did not deliver: on every path from the read '
+             'to a use of the buffer the function returns, clears the buffer tail (memset) or stores the delivered count in the private object first; paths on which the read is known complete '
+             'are exempt. Otherwise the samples of a truncated last block depend on which block was decoded before (sequential read vs. seek). Exceptions with a written argument whose supporting '
+             'fact (non-seekable codec / frame count of whole blocks only) is re-established from the source on every run: tables/c06_blockfill.tsv', floor=12)
+    from engine.blockfill import block_fill, load_frozen
+    import os as _os
+    n_bf = block_fill(ctx, prog, frozen=load_frozen(_os.path.join(_os.path.dirname(_os.path.dirname(_os.path.abspath(__file__))), 'tables', 'c06_blockfill.tsv')))
+    ctx.require(n_bf >= 12, 'only %d reads into codec-private block buffers found' % n_bf)
 
     from engine.run import borrow
     borrow(ctx, 'C05', ['STAGING'], 'a staging loop that delivers more (or other) items for one large request than for the same request in pieces makes the samples depend on the partition')
